@@ -4,8 +4,10 @@
 //!   vh run                                   → reads op lines on stdin, executes each against
 //!                                              the real implementation, one output line per op
 mod c15;
+mod rdf;
 mod tx;
 mod util;
+mod wal;
 
 use std::io::{BufRead, Write};
 
@@ -33,6 +35,8 @@ fn main() {
             match stream {
                 "c15" => c15::generate(seed, cases, &mut out),
                 "tx" => tx::generate(seed, cases, &mut out),
+                "rdf" => rdf::generate(seed, cases, &mut out),
+                "wal" => wal::generate(seed, cases, args.iter().any(|a| a == "--thorough"), &mut out),
                 _ => {
                     eprintln!("unknown stream {stream}");
                     std::process::exit(2);
@@ -49,12 +53,14 @@ fn main() {
             let stdout = std::io::stdout();
             let mut w = std::io::BufWriter::new(stdout.lock());
             let mut txst = tx::TxState_::new();
+            let mut rdfst = rdf::RdfSt::new();
             for line in stdin.lock().lines() {
                 let line = line.unwrap();
                 if line.starts_with('#') {
                     writeln!(w, "{}", line).unwrap();
                     if line.starts_with("# case") {
                         txst = tx::TxState_::new();
+                        rdfst = rdf::RdfSt::new();
                     }
                     continue;
                 }
@@ -62,6 +68,8 @@ fn main() {
                 let res = match toks.first().copied() {
                     Some("c15") => c15::run(&toks[1..]),
                     Some("tx") => tx::run(&mut txst, &toks[1..]),
+                    Some("rdf") => rdf::run(&mut rdfst, &toks[1..]),
+                    Some("wal") => wal::run(&toks[1..]),
                     _ => "bad-op".to_string(),
                 };
                 writeln!(w, "{}", res).unwrap();
